@@ -75,6 +75,10 @@ def addAll (o : Opts) : List PG → List PG → List String → List PG × List 
   | acc, [], rs => (acc, rs.reverse)
   | acc, p :: ps, rs => let (acc', r) := tgAdd o acc p; addAll o acc' ps (showAdd r :: rs)
 
+def txHexDigit (n : Nat) : Char := "0123456789abcdef".toList.getD n '?'
+def txHexBytes (bs : List Nat) : String :=
+  String.ofList (bs.flatMap (fun b => [txHexDigit (b / 16 % 16), txHexDigit (b % 16)]))
+
 def txpEngine (args : List String) : String :=
   match args with
   | ["size", payer, ver, luts, ixs] =>
@@ -85,6 +89,10 @@ def txpEngine (args : List String) : String :=
         | some ts => s!"est {estimate payer ixs ver (some ts)} wire {wireLen payer ixs ver ts}"
         | none => "bad-op"
     | _, _, _ => "bad-op"
+  | ["bytes", payer, ver, luts, ixs] =>
+    match pNat payer, pBool ver, pIxs ixs, (if luts = "none" then some [] else pLuts luts) with
+    | some payer, some ver, some ixs, some ts => txHexBytes (serialize payer ixs ver ts)
+    | _, _, _, _ => "bad-op"
   | ["sizeset", payer, ver, luts, ixs] =>
     match pNat payer, pBool ver, pIxs ixs with
     | some payer, some ver, some ixs =>
